@@ -36,6 +36,7 @@ import (
 	"net/http"
 	"os"
 	"os/exec"
+	"path/filepath"
 	"regexp"
 	"sort"
 	"strconv"
@@ -670,6 +671,12 @@ func hasLongLine(fileHex string) bool {
 
 var wsNoLF = []byte{' ', '\t', '\r', '\v', '\f'}
 
+// white-space runes other than the ASCII ones (strings.TrimSpace = unicode.IsSpace): permitted as padding as well
+var uniSpaces = []string{"\u0085", "\u00a0", "\u1680", "\u2000", "\u2003", "\u200a", "\u2028", "\u2029", "\u202f", "\u205f", "\u3000"}
+
+// c07UniPad: the layout being generated mixes Unicode white space into its padding (set per layout by randLayout)
+var c07UniPad bool
+
 func pad(r *rand.Rand, max int, crOK bool) []byte {
 	n := r.Intn(max + 1)
 	var o []byte
@@ -680,6 +687,10 @@ func pad(r *rand.Rand, max int, crOK bool) []byte {
 		}
 		if b == '\r' && !crOK {
 			b = '\t'
+		}
+		if c07UniPad && r.Intn(3) == 0 {
+			o = append(o, uniSpaces[r.Intn(len(uniSpaces))]...)
+			continue
 		}
 		o = append(o, b)
 	}
@@ -792,6 +803,8 @@ func randBlanks(r *rand.Rand, f flags, max int) [][]byte {
 func randLayout(r *rand.Rand, f flags, n int) layout {
 	var lay layout
 	lay.fnl = f.fnl
+	c07UniPad = f.padding && r.Intn(4) == 0
+	defer func() { c07UniPad = false }()
 	if f.lead {
 		lay.lead = randBlanks(r, flags{blanks: true, padding: f.padding, crlf: f.crlf}, 3)
 		if len(lay.lead) == 0 {
@@ -989,6 +1002,28 @@ var readSizes = []int{1, 1, 2, 3, 7, 64, 1000, 4095, 4096, 4097}
 
 // c07Gen: the streams of c07Streams; every third case additionally reads its file through short reads (token rd=<max bytes per Read>)
 func c07Gen(r *rand.Rand, tier string) []string {
+	out := c07GenAll(r, tier)
+	if !c07Race {
+		return out
+	}
+	// the run under the race detector (5-10 times slower) keeps what can race: every case with concurrent consumers,
+	// deliveries in flight or preload, and a sample of the rest; no multi-megabyte files
+	var keep []string
+	for i, l := range out {
+		conc := strings.Contains(l, " cons=") || strings.Contains(l, " win=") || strings.Contains(l, " pre=1 ")
+		every := 8
+		if tier == "thorough" {
+			every = 40
+			conc = conc && i%4 == 0
+		}
+		if len(l) < 1<<19 && (conc || i%every == 0) {
+			keep = append(keep, l)
+		}
+	}
+	return keep
+}
+
+func c07GenAll(r *rand.Rand, tier string) []string {
 	out := c07Streams(r, tier)
 	r2 := rand.New(rand.NewSource(r.Int63()))
 	for i := range out {
@@ -1637,8 +1672,21 @@ func c07StartChild() (*c07Child, error) {
 	if err != nil {
 		return nil, err
 	}
+	// replay (`-in <file>`: a handful of cases): `./check --replay` runs only this driver, not the one built with -race, so
+	// the children of a replay are started from the race-detector build next to it when there is one
+	// (.build/drive-C07<tag> -> .build/drive-C07-race<tag>); a failure that was a DATA RACE then reproduces
+	if !c07Race && c07IsReplay() {
+		dir, base := filepath.Split(exe)
+		if sib := filepath.Join(dir, strings.Replace(base, "drive-C07", "drive-C07-race", 1)); sib != exe {
+			if st, err := os.Stat(sib); err == nil && !st.IsDir() {
+				exe = sib
+			}
+		}
+	}
 	cmd := exec.Command(exe, c07WorkerFlag)
-	cmd.Env = append(os.Environ(), "GOTRACEBACK=single")
+	// GORACE only matters for the driver built with -race (props/C07.json "race": true): the first data race ends the child,
+	// so that the race is attributed to the case that was running
+	cmd.Env = append(os.Environ(), "GOTRACEBACK=single", "GORACE=halt_on_error=1 exitcode=66")
 	stdin, err := cmd.StdinPipe()
 	if err != nil {
 		return nil, err
@@ -1669,6 +1717,20 @@ var c07Addr = regexp.MustCompile(`0x[0-9a-fA-F]+|\b[0-9]{3,}\b`)
 
 // c07FatalLine: the runtime's own one-line description of why the process ended, without addresses and numbers
 func c07FatalLine(stderr string, waitErr error) string {
+	if i := strings.Index(stderr, "WARNING: DATA RACE"); i >= 0 {
+		// the race detector's report: name the first two functions of the code under test that appear in it
+		var where []string
+		for _, l := range strings.Split(stderr[i:], "\n") {
+			l = strings.TrimSpace(l)
+			if strings.HasPrefix(l, "github.com/yandex/pandora/") && len(where) < 2 {
+				if j := strings.LastIndexByte(l, '('); j > 0 {
+					l = l[:j]
+				}
+				where = append(where, strings.TrimPrefix(l, "github.com/yandex/pandora/"))
+			}
+		}
+		return "DATA RACE " + strings.Join(where, " / ")
+	}
 	for _, l := range strings.Split(stderr, "\n") {
 		l = strings.TrimSpace(l)
 		if strings.HasPrefix(l, "fatal error:") || strings.HasPrefix(l, "panic:") || strings.HasPrefix(l, "runtime:") || strings.HasPrefix(l, "SIG") {
@@ -1681,9 +1743,30 @@ func c07FatalLine(stderr string, waitErr error) string {
 	return "worker ended without an answer"
 }
 
+func c07IsReplay() bool {
+	for _, a := range os.Args[1:] {
+		if a == "-in" || a == "--in" || strings.HasPrefix(a, "-in=") || strings.HasPrefix(a, "--in=") {
+			return true
+		}
+	}
+	return false
+}
+
 var c07Idle = make(chan *c07Child, 64)
 
 const c07CaseTimeout = 25 * time.Second
+
+// c07RunCase: one case = one run in a worker child. A replay of a case with concurrent consumers is scheduler-dependent:
+// it is repeated (up to 40 times) until the process-ending fault shows again, otherwise the last observation stands.
+func c07RunCase(input string) string {
+	obs := c07RunIsolated(input)
+	if c07IsReplay() && strings.Contains(input, " cons=") {
+		for i := 0; i < 40 && !strings.HasPrefix(obs, "FATAL"); i++ {
+			obs = c07RunIsolated(input)
+		}
+	}
+	return obs
+}
 
 // c07RunIsolated: run one case in a worker child; the child is reused for the next case when it survived.
 func c07RunIsolated(input string) string {
@@ -1758,12 +1841,12 @@ func main() {
 	drv.Main(&drv.Prop{
 		ID:      "C07",
 		Gen:     c07Gen,
-		Run:     c07RunIsolated,
+		Run:     c07RunCase,
 		Class:   c07Class,
 		Workers: 8,
 		Timeout: 30 * time.Second,
 		Rule: "entry lists (header lines, requests with URIs incl. queries, binary/empty bodies, tags with spaces) rendered into uri/uripost/raw with " +
-			"layout flags {blank lines, leading blanks, padding, CRLF, final newline} (thorough: all 32 x sizes 1-6), limits of 2.5 or 4.5 passes or no limit at all, streaming and preload, " +
+			"layout flags {blank lines, leading blanks, padding (a quarter of the padded layouts mix in Unicode white space: NEL, NBSP, U+1680, U+2000-200A, U+2028/9, U+202F, U+205F, U+3000), CRLF, final newline} (thorough: all 32 x sizes 1-6), limits of 2.5 or 4.5 passes or no limit at all, streaming and preload, " +
 			"with and without a `headers` option; lines of 4 KiB to 140 KiB (target, tag, header key/value, padding, blank line; at and around 4096, 8192, ..., 65536, 131072) in every line format; " +
 			"files of hundreds to thousands of entries; http/json entity lists in line/pretty/array layouts with leading/trailing white space, unknown fields and very long values; " +
 			"a malformed stream (fixed witnesses, Unicode white space at line edges, byte mutations) and the exhaustive enumeration of all short byte strings / short line sequences; " +
